@@ -180,12 +180,19 @@ func (im *Image) Apply(e *Event) {
 }
 
 // ApplyTorn applies only a part of a write: for a log write the first n bytes; for a page write the first n 512-byte sectors.
+// TornBeyondEOF reports whether a torn write of e would extend the file (the page lies at or beyond the current end of the db file).
+func (im *Image) TornBeyondEOF(e *Event) bool {
+	return e.Kind == WritePage && int(e.Page)*PageSize >= len(im.DB)
+}
+
 func (im *Image) ApplyTorn(e *Event, n int) {
 	switch e.Kind {
 	case WritePage:
 		off := int(e.Page) * PageSize
-		if len(im.DB) < off+PageSize {
-			im.DB = append(im.DB, make([]byte, off+PageSize-len(im.DB))...)
+		// a torn write of a page that lies beyond the end of the file leaves a file that ENDS inside that page
+		// (only the sectors that were written exist); inside the file the rest of the old page image stays
+		if len(im.DB) < off+n*512 {
+			im.DB = append(im.DB, make([]byte, off+n*512-len(im.DB))...)
 		}
 		copy(im.DB[off:off+n*512], e.Data[:n*512])
 	case WriteLog:
